@@ -249,7 +249,15 @@ pub fn json_band(rf: &RefOut, path: &str) -> f64 {
 /// rounding noise of its own terms the RER lines are noise as well and are left out.
 pub fn comparable_report(text: &str, rf: &RefOut) -> String {
     let noisy = rf.get("rer").map(|v| !(v.s < 0.004)).unwrap_or(false) || rf.get("rer_nrb").map(|v| !(v.s < 0.004)).unwrap_or(false);
-    text.lines().filter(|l| !(noisy && (l.starts_with("RER = ") || l.starts_with("RER_nrb = ")))).collect::<Vec<_>>().join("\n")
+    // by-carrier tables list a carrier only when its amount is non-zero; for an amount that is a rounding residue
+    // (printed as 0.00 / -0.00) the row is there or not depending on the run: such rows are left out on both sides
+    let zero_row = |l: &str| -> bool {
+        match l.strip_prefix("- ").and_then(|r| r.split_once(": ")) {
+            Some((k, v)) => k.chars().all(|c| c.is_ascii_uppercase() || c.is_ascii_digit() || c == '_') && (v == "0.00" || v == "-0.00"),
+            None => false,
+        }
+    };
+    text.lines().filter(|l| !(noisy && (l.starts_with("RER = ") || l.starts_with("RER_nrb = "))) && !zero_row(l)).collect::<Vec<_>>().join("\n")
 }
 
 /// Rounding noise of the DHW renewable fraction: it is a ratio whose numerator contains f32 differences
